@@ -861,8 +861,12 @@ fn monitors(s: &mut Session, desc: &str, sc: &Scenario, tr: &Trace) {
 				break;
 			}
 			if let Some(lp) = last_pos {
-				// paced scenarios never let the decoder push during a callback: at most one frame may be lost at a gap
-				if !sc.free && q - lp > 2 {
+				// paced scenarios never let the decoder push during a callback: at most one frame may be lost at a gap.
+				// A fade is not a gap: while Pausing / Stopping / Resuming the sound advances, and the frames it plays
+				// at a gain of exactly zero (the last frame of a fade-out reaches -60 dB = silence) are heard as
+				// silence although they were played: one more frame of slack per command that carries a fade
+				let fades = sc.evs.iter().filter(|e| matches!(e, Ev::Pause(f) | Ev::Resume(f) | Ev::Stop(f) | Ev::ResumeAtClock(_, f) if *f > 0)).count();
+				if !sc.free && q - lp > 2 + fades {
 					s.fail(desc.to_string(), format!("callback {cb}: playback resumed {} frames after where it stopped", q - lp - 1), None);
 				}
 			}
